@@ -106,24 +106,221 @@ func CondPolarity(v ssa.Value) (ssa.Value, bool) {
 	}
 }
 
+// atom is one atomic branch condition with the polarity it is known to have. A comparison with nil is kept in normal form as
+// well (nilOf is / is not nil) so that facts about the same value found in different instructions can be compared.
+type atom struct {
+	v     ssa.Value // the condition value (a comparison or an opaque boolean); nil for a derived nil-fact
+	pol   bool      // v has this value
+	nilOf ssa.Value // non-nil: "nilOf == nil" has the value isNil
+	isNil bool
+}
+
+func mkAtom(c ssa.Value, pol bool) atom {
+	a := atom{v: c, pol: pol}
+	if bo, ok := c.(*ssa.BinOp); ok && (bo.Op == token.EQL || bo.Op == token.NEQ) {
+		var x ssa.Value
+		if NilConst(bo.Y) {
+			x = bo.X
+		} else if NilConst(bo.X) {
+			x = bo.Y
+		}
+		if x != nil {
+			a.nilOf, a.isNil = x, (bo.Op == token.EQL) == pol
+		}
+	}
+	return a
+}
+
+// consistent: no value is stated to be both nil and not nil, no condition both true and false.
+func consistent(w []atom) bool {
+	for i, a := range w {
+		for _, b := range w[i+1:] {
+			if a.nilOf != nil && a.nilOf == b.nilOf && a.isNil != b.isNil {
+				return false
+			}
+			if a.v != nil && a.v == b.v && a.pol != b.pol {
+				return false
+			}
+		}
+	}
+	return true
+}
+
+// definitelyNotNil: values that cannot be nil (fresh allocations, boxed concrete values, addresses).
+func definitelyNotNil(v ssa.Value) bool {
+	switch x := v.(type) {
+	case *ssa.Alloc, *ssa.MakeInterface, *ssa.FieldAddr, *ssa.IndexAddr, *ssa.MakeClosure, *ssa.MakeMap, *ssa.MakeChan, *ssa.MakeSlice, *ssa.Function, *ssa.Global:
+		return true
+	case *ssa.Const:
+		return x.Value != nil
+	}
+	return false
+}
+
+// impliedWays explains how the boolean value c can have the value pol: a list of alternatives ("ways"), each a conjunction of
+// atomic conditions. Negations are peeled; a boolean phi (what go/ssa makes of `x := a || b`, `flag := !(p && q)`, a flag
+// assigned in branches) is opened: an incoming edge whose operand is the opposite constant is impossible; every other edge
+// contributes the ways its operand can have the value, each extended by the branch conditions on the single-predecessor
+// chain leading to that edge. A comparison of a phi with nil (`err != nil` where err was assigned on several paths) is
+// opened the same way. Ways that contradict themselves (a value nil and not nil) are dropped. Something holds when
+// c == pol if it holds in EVERY remaining way.
+func impliedWays(c ssa.Value, pol bool, depth int) [][]atom {
+	c, neg := CondPolarity(c)
+	if neg {
+		pol = !pol
+	}
+	self := mkAtom(c, pol)
+	if depth > 6 {
+		return [][]atom{{self}}
+	}
+	var out [][]atom
+	add := func(phi *ssa.Phi, i int, sub [][]atom) bool {
+		chain := chainAtoms(phi.Block().Preds[i], phi.Block(), depth+1)
+		for _, w := range sub {
+			way := append(append([]atom{self}, w...), chain...)
+			if consistent(way) {
+				out = append(out, way)
+			}
+		}
+		return len(out) <= 64
+	}
+	if phi, ok := c.(*ssa.Phi); ok {
+		for i, op := range phi.Edges {
+			sub := [][]atom{nil}
+			if k, isC := op.(*ssa.Const); isC && k.Value != nil {
+				if (k.Value.String() == "true") != pol {
+					continue // this edge cannot have produced the value
+				}
+			} else {
+				sub = impliedWays(op, pol, depth+1)
+			}
+			if !add(phi, i, sub) {
+				return [][]atom{{self}}
+			}
+		}
+		if len(out) == 0 {
+			return [][]atom{{self}}
+		}
+		return out
+	}
+	if phi, ok := self.nilOf.(*ssa.Phi); ok && self.nilOf != nil {
+		for i, op := range phi.Edges {
+			sub := [][]atom{nil}
+			switch {
+			case NilConst(op):
+				if !self.isNil {
+					continue
+				}
+			case definitelyNotNil(op):
+				if self.isNil {
+					continue
+				}
+			default:
+				sub = [][]atom{{{nilOf: op, isNil: self.isNil}}}
+			}
+			if !add(phi, i, sub) {
+				return [][]atom{{self}}
+			}
+		}
+		if len(out) == 0 {
+			return [][]atom{{self}}
+		}
+		return out
+	}
+	return [][]atom{{self}}
+}
+
+// impliedAtoms: the atoms common to every way (a conjunction that certainly holds).
+func impliedAtoms(c ssa.Value, pol bool, depth int) []atom {
+	ways := impliedWays(c, pol, depth)
+	var inter []atom
+	for i, w := range ways {
+		if i == 0 {
+			inter = w
+			continue
+		}
+		var keep []atom
+		for _, a := range inter {
+			for _, b := range w {
+				if a == b {
+					keep = append(keep, a)
+					break
+				}
+			}
+		}
+		inter = keep
+	}
+	return inter
+}
+
+// edgeHolds reports whether on edge k of the If every way of explaining the branch contains an atom accepted by match:
+// match may accept several different atoms (a disjunction such as `err == A || err == B` is then recognised as "err is one
+// of the sentinels").
+func edgeHolds(iff *ssa.If, k int, match func(a atom) bool) bool {
+	for _, w := range impliedWays(iff.Cond, k == 0, 0) {
+		hit := false
+		for _, a := range w {
+			if match(a) {
+				hit = true
+				break
+			}
+		}
+		if !hit {
+			return false
+		}
+	}
+	return true
+}
+
+// chainAtoms: the branch conditions known when control goes from block p to its successor b, following p's
+// single-predecessor chain upwards.
+func chainAtoms(p, b *ssa.BasicBlock, depth int) []atom {
+	var out []atom
+	for n := 0; n < 8 && p != nil; n++ {
+		if iff, ok := lastIf(p); ok && p.Succs[0] != p.Succs[1] {
+			if p.Succs[0] == b {
+				out = append(out, impliedAtoms(iff.Cond, true, depth+1)...)
+			} else if p.Succs[1] == b {
+				out = append(out, impliedAtoms(iff.Cond, false, depth+1)...)
+			}
+		}
+		if len(p.Preds) != 1 {
+			break
+		}
+		p, b = p.Preds[0], p
+	}
+	return out
+}
+
 // CmpEdges returns the edges of fn on which "A rel B" holds for some rel ⊆ want
 // (i.e. the edge's relation implies the wanted one), over all If terminators whose condition
 // compares a value matching a with one matching b (either operand order, negations peeled).
 func CmpEdges(fn *ssa.Function, a, b VM, want Rel) []Edge {
 	var out []Edge
-	for _, blk := range fn.Blocks {
-		iff, ok := lastIf(blk)
-		if !ok {
-			continue
+	match := func(at atom) bool {
+		if at.nilOf != nil {
+			// "nilOf == nil" is isNil: a relation between nilOf and the nil constant
+			nc := ssa.Value(ssa.NewConst(nil, at.nilOf.Type()))
+			r := NE
+			if at.isNil {
+				r = EQ
+			}
+			if (a(at.nilOf) && b(nc)) || (a(nc) && b(at.nilOf)) {
+				if r&^want == 0 {
+					return true
+				}
+			}
+			if at.v == nil {
+				return false
+			}
 		}
-		cond, neg := CondPolarity(iff.Cond)
-		bo, ok := cond.(*ssa.BinOp)
+		bo, ok := at.v.(*ssa.BinOp)
 		if !ok {
-			continue
+			return false
 		}
 		r, ok := relOfOp(bo.Op)
 		if !ok {
-			continue
+			return false
 		}
 		var rels []Rel
 		if a(bo.X) && b(bo.Y) {
@@ -133,14 +330,32 @@ func CmpEdges(fn *ssa.Function, a, b VM, want Rel) []Edge {
 			rels = append(rels, r.swap())
 		}
 		for _, r := range rels {
-			if neg {
+			if !at.pol {
 				r = r.neg()
 			}
-			if r&^want == 0 && r != 0 { // relation on the true edge implies want
-				out = append(out, Edge{blk, 0})
+			if r&^want == 0 && r != 0 { // the relation known on this edge implies want
+				return true
 			}
-			if nr := r.neg(); nr&^want == 0 && nr != 0 {
-				out = append(out, Edge{blk, 1})
+		}
+		return false
+	}
+	for _, blk := range fn.Blocks {
+		iff, ok := lastIf(blk)
+		if !ok {
+			continue
+		}
+		for k := 0; k < 2; k++ {
+			if want == LT|EQ|GT {
+				// "any relation": the caller asks for the edges OF such comparisons, not for what is known on an edge —
+				// only the branch's own condition counts
+				c, neg := CondPolarity(iff.Cond)
+				if match(mkAtom(c, (k == 0) != neg)) {
+					out = append(out, Edge{blk, k})
+				}
+				continue
+			}
+			if edgeHolds(iff, k, match) {
+				out = append(out, Edge{blk, k})
 			}
 		}
 	}
@@ -193,15 +408,10 @@ func BoolEdges(fn *ssa.Function, m VM, pol bool) []Edge {
 		if !ok {
 			continue
 		}
-		cond, neg := CondPolarity(iff.Cond)
-		if !m(cond) {
-			continue
-		}
-		// true edge means cond==!neg
-		if pol != neg {
-			out = append(out, Edge{blk, 0})
-		} else {
-			out = append(out, Edge{blk, 1})
+		for k := 0; k < 2; k++ {
+			if edgeHolds(iff, k, func(at atom) bool { return at.v != nil && at.pol == pol && m(at.v) }) {
+				out = append(out, Edge{blk, k})
+			}
 		}
 	}
 	return out
@@ -248,43 +458,165 @@ func (w *Witness) String() string {
 }
 
 // Find returns a witness path or nil when no path exists.
+// selector describes an If edge whose condition is (a comparison with nil of) a phi: crossing the edge is possible only
+// when the phi's block was last entered through one of the allowed predecessors. `x, err := r0, r1; if err != nil` after an
+// inlined helper, or a flag assigned in branches and tested later, are of this kind; without it a path could leave the
+// helper through its error exit and continue over the caller's err == nil edge.
+type selector struct {
+	blk     *ssa.BasicBlock
+	allowed map[int]bool
+}
+
+var selectorMemo = map[*ssa.Function]map[Edge]selector{}
+
+func selectorsOf(fn *ssa.Function) map[Edge]selector {
+	if m, ok := selectorMemo[fn]; ok {
+		return m
+	}
+	m := map[Edge]selector{}
+	for _, b := range fn.Blocks {
+		iff, ok := lastIf(b)
+		if !ok {
+			continue
+		}
+		for k := 0; k < 2; k++ {
+			c, neg := CondPolarity(iff.Cond)
+			pol := (k == 0) != neg
+			self := mkAtom(c, pol)
+			var phi *ssa.Phi
+			isBool := false
+			if ph, ok := c.(*ssa.Phi); ok {
+				phi, isBool = ph, true
+			} else if ph, ok := self.nilOf.(*ssa.Phi); ok && self.nilOf != nil {
+				phi = ph
+			}
+			if phi == nil {
+				continue
+			}
+			allowed := map[int]bool{}
+			for i, op := range phi.Edges {
+				var sub [][]atom
+				if isBool {
+					if kc, isC := op.(*ssa.Const); isC && kc.Value != nil {
+						if (kc.Value.String() == "true") != pol {
+							continue
+						}
+						sub = [][]atom{nil}
+					} else {
+						sub = impliedWays(op, pol, 1)
+					}
+				} else {
+					switch {
+					case NilConst(op):
+						if !self.isNil {
+							continue
+						}
+						sub = [][]atom{nil}
+					case definitelyNotNil(op):
+						if self.isNil {
+							continue
+						}
+						sub = [][]atom{nil}
+					default:
+						sub = [][]atom{{{nilOf: op, isNil: self.isNil}}}
+					}
+				}
+				chain := chainAtoms(phi.Block().Preds[i], phi.Block(), 1)
+				for _, w := range sub {
+					if consistent(append(append([]atom{}, w...), chain...)) {
+						allowed[i] = true
+						break
+					}
+				}
+			}
+			if len(allowed) < len(phi.Edges) {
+				m[Edge{b, k}] = selector{phi.Block(), allowed}
+			}
+		}
+	}
+	selectorMemo[fn] = m
+	return m
+}
+
+// ResetPathCaches forgets per-function summaries (a new program was loaded).
+func ResetPathCaches() {
+	selectorMemo = map[*ssa.Function]map[Edge]selector{}
+}
+
 func (q *PathQuery) Find() *Witness {
 	cut := map[Edge]bool{}
 	for _, e := range q.CutEdges {
 		cut[e] = true
 	}
-	type state struct {
-		b   *ssa.BasicBlock
-		idx int
+	sels := selectorsOf(q.Fn)
+	tracked := map[*ssa.BasicBlock]int{} // phi blocks that selectors refer to -> slot
+	for _, s := range sels {
+		if _, ok := tracked[s.blk]; !ok {
+			tracked[s.blk] = len(tracked)
+		}
 	}
-	prev := map[*ssa.BasicBlock]*ssa.BasicBlock{}
-	visitedStart := map[*ssa.BasicBlock]bool{} // block entered at index 0
+	// a search state is a block plus, for every tracked phi block, the predecessor index through which it was last
+	// entered on this path (-1: not entered since the start of the path)
+	type skey struct {
+		b   *ssa.BasicBlock
+		sig string
+	}
+	type state struct {
+		b     *ssa.BasicBlock
+		idx   int
+		entry []int8
+	}
+	sigOf := func(e []int8) string {
+		return string(func() []byte {
+			o := make([]byte, len(e))
+			for i, x := range e {
+				o[i] = byte(x + 1)
+			}
+			return o
+		}())
+	}
+	prev := map[skey]skey{}
+	hasPrev := map[skey]bool{}
+	visited := map[skey]bool{}
 	var queue []state
-	var startBlocks []*ssa.BasicBlock
-	push := func(b *ssa.BasicBlock, from *ssa.BasicBlock) {
-		if visitedStart[b] {
+	fresh := func() []int8 {
+		e := make([]int8, len(tracked))
+		for i := range e {
+			e[i] = -1
+		}
+		return e
+	}
+	push := func(b *ssa.BasicBlock, from *skey, entry []int8) {
+		k := skey{b, sigOf(entry)}
+		if visited[k] {
 			return
 		}
-		visitedStart[b] = true
-		prev[b] = from
-		queue = append(queue, state{b, 0})
+		visited[k] = true
+		if from != nil {
+			prev[k], hasPrev[k] = *from, true
+		}
+		queue = append(queue, state{b, 0, entry})
 	}
-	// scan processes instructions of b from idx; returns a witness if found.
-	mkWitness := func(b *ssa.BasicBlock, at ssa.Instruction, ed *Edge) *Witness {
+	mkWitness := func(k skey, at ssa.Instruction, ed *Edge) *Witness {
 		var chain []int
-		seen := map[*ssa.BasicBlock]bool{}
-		for x := b; x != nil && !seen[x]; x = prev[x] {
+		seen := map[skey]bool{}
+		for x := k; !seen[x]; {
 			seen[x] = true
-			chain = append([]int{x.Index}, chain...)
+			chain = append([]int{x.b.Index}, chain...)
+			if !hasPrev[x] {
+				break
+			}
+			x = prev[x]
 		}
 		return &Witness{Blocks: chain, At: at, AtEdge: ed}
 	}
-	scan := func(st state, partial bool) *Witness {
+	scan := func(st state) *Witness {
 		b := st.b
+		k := skey{b, sigOf(st.entry)}
 		for i := st.idx; i < len(b.Instrs); i++ {
 			in := b.Instrs[i]
 			if q.Target != nil && q.Target(in) {
-				return mkWitness(b, in, nil)
+				return mkWitness(k, in, nil)
 			}
 			if q.CutInstr != nil && q.CutInstr(in) {
 				return nil
@@ -295,25 +627,55 @@ func (q *PathQuery) Find() *Witness {
 			if cut[e] || (q.CutEdgeFn != nil && q.CutEdgeFn(e)) {
 				continue
 			}
-			if q.TargetEdge != nil && q.TargetEdge(e) {
-				return mkWitness(b, nil, &e)
+			if s, ok := sels[e]; ok {
+				if got := st.entry[tracked[s.blk]]; got >= 0 && !s.allowed[int(got)] {
+					continue // this path entered the phi's block over an edge that gives the condition the other value
+				}
 			}
-			push(e.To(), b)
+			if q.TargetEdge != nil && q.TargetEdge(e) {
+				return mkWitness(k, nil, &e)
+			}
+			to := e.To()
+			entry := st.entry
+			if slot, ok := tracked[to]; ok {
+				entry = append([]int8(nil), st.entry...)
+				pi := -1
+				for i, p := range to.Preds {
+					if p == b {
+						pi = i
+						// a block can be a predecessor twice (both branches of an If); the phi operands are then equal
+						break
+					}
+				}
+				entry[slot] = int8(pi)
+			}
+			push(to, &k, entry)
 		}
 		return nil
 	}
 	if q.FromEntry && len(q.Fn.Blocks) > 0 {
-		startBlocks = append(startBlocks, q.Fn.Blocks[0])
-		push(q.Fn.Blocks[0], nil)
+		push(q.Fn.Blocks[0], nil, fresh())
 	}
 	for _, e := range q.FromEdges {
-		push(e.To(), e.From)
+		entry := fresh()
+		if slot, ok := tracked[e.To()]; ok {
+			for i, p := range e.To().Preds {
+				if p == e.From {
+					entry[slot] = int8(i)
+					break
+				}
+			}
+		}
+		from := skey{e.From, sigOf(fresh())}
+		push(e.To(), &from, entry)
 	}
 	for _, in := range q.FromAfter {
 		b := in.Block()
 		for i, x := range b.Instrs {
 			if x == in {
-				if w := scan(state{b, i + 1}, true); w != nil {
+				st := state{b, i + 1, fresh()}
+				visited[skey{b, "after" + sigOf(st.entry)}] = true
+				if w := scan(st); w != nil {
 					return w
 				}
 			}
@@ -322,7 +684,7 @@ func (q *PathQuery) Find() *Witness {
 	for len(queue) > 0 {
 		st := queue[0]
 		queue = queue[1:]
-		if w := scan(st, false); w != nil {
+		if w := scan(st); w != nil {
 			return w
 		}
 	}
@@ -551,4 +913,91 @@ func SameFact(a, b EdgeFact, eq func(x, y ssa.Value) bool) bool {
 		return true
 	}
 	return a.Rel == b.Rel.swap() && eq(a.X, b.Y) && eq(a.Y, b.X)
+}
+
+// CmpExists reports whether fn compares a value matching a with one matching b anywhere (as a branch condition or as a
+// value computed into a flag).
+func CmpExists(fn *ssa.Function, a, b VM) bool {
+	found := false
+	Instrs(fn, func(in ssa.Instruction) {
+		bo, ok := in.(*ssa.BinOp)
+		if !ok {
+			return
+		}
+		if _, isRel := relOfOp(bo.Op); !isRel {
+			return
+		}
+		if (a(bo.X) && b(bo.Y)) || (a(bo.Y) && b(bo.X)) {
+			found = true
+		}
+	})
+	return found
+}
+
+// AtomView is what a rule sees of one atomic condition known on an edge.
+type AtomView struct {
+	Cmp  bool      // X Rel Y
+	X, Y ssa.Value // operands of the comparison (Y is a nil constant for nil-facts)
+	Rel  Rel
+	Val  ssa.Value // opaque boolean (Cmp false)
+	Pol  bool
+}
+
+func viewOf(at atom) (AtomView, bool) {
+	if at.nilOf != nil {
+		r := NE
+		if at.isNil {
+			r = EQ
+		}
+		return AtomView{Cmp: true, X: at.nilOf, Y: ssa.NewConst(nil, at.nilOf.Type()), Rel: r}, true
+	}
+	if at.v == nil {
+		return AtomView{}, false
+	}
+	if bo, ok := at.v.(*ssa.BinOp); ok {
+		if r, ok := relOfOp(bo.Op); ok {
+			if !at.pol {
+				r = r.neg()
+			}
+			return AtomView{Cmp: true, X: bo.X, Y: bo.Y, Rel: r}, true
+		}
+	}
+	return AtomView{Val: at.v, Pol: at.pol}, true
+}
+
+// EdgesWhere returns the edges on which, whichever way the branch condition came to have its value, some atomic condition
+// accepted by ok is known: ok may accept several different conditions (`i == 0 || x < m` satisfies "first element, or
+// smaller than the minimum so far").
+func EdgesWhere(fn *ssa.Function, ok func(AtomView) bool) []Edge {
+	var out []Edge
+	for _, blk := range fn.Blocks {
+		iff, isIf := lastIf(blk)
+		if !isIf {
+			continue
+		}
+		for k := 0; k < 2; k++ {
+			if edgeHolds(iff, k, func(at atom) bool {
+				v, has := viewOf(at)
+				return has && ok(v)
+			}) {
+				out = append(out, Edge{blk, k})
+			}
+		}
+	}
+	return out
+}
+
+// RelHolds reports whether the view states "a rel b" for some rel within want (either operand order).
+func (v AtomView) RelHolds(a, b VM, want Rel) bool {
+	if !v.Cmp {
+		return false
+	}
+	if a(v.X) && b(v.Y) && v.Rel&^want == 0 && v.Rel != 0 {
+		return true
+	}
+	if a(v.Y) && b(v.X) {
+		r := v.Rel.swap()
+		return r&^want == 0 && r != 0
+	}
+	return false
 }
